@@ -140,9 +140,12 @@ func kf25Scripts() []string {
 		"y = 0; rec((y = 3)); return y;", "return (x = 1) ? 1 : 2;", "return {\"k\": (v = 1)};", "x = -(y = 2); return x;"}
 }
 
-// KF-26: duplicate keys in a hash literal: which value wins depends on Go's map iteration order
+// KF-26 (repaired): duplicate keys in a hash literal - which value won used to depend on Go's map iteration
+// order; the scripts stay as a replicated regression stream (S-det-known), now compared with the model too
 func kf26Scripts() []string {
-	return []string{"return {\"a\": 1, \"a\": 2};", "h = {1: \"x\", 1: \"y\", 1: \"z\"}; return h;", "return keys({\"k\": 1, \"k\": 2, \"j\": 3});"}
+	return []string{"return {\"a\": 1, \"a\": 2};", "h = {1: \"x\", 1: \"y\", 1: \"z\"}; return h;", "return keys({\"k\": 1, \"k\": 2, \"j\": 3});",
+		"return {\"a\": {3: 4, 5: 6, 7: 8}, \"a\": {9: 1, 5: 6, 7: 8}, \"a\": 2};", "return {{1: 2, 3: 4}: 1, {3: 4, 1: 2}: 2};",
+		"h = {\"k\": {\"b\": 1, \"a\": 2, \"c\": 3}, \"k\": {\"c\": 3, \"b\": 1, \"a\": 1}}; return h[\"k\"][\"a\"];"}
 }
 
 func genCtlKnown(stream string, seed uint64) []GenCase {
@@ -174,22 +177,13 @@ func genDetKnown(stream string, seed uint64, replicas int) []GenCase {
 	for i, s := range kf26Scripts() {
 		o := stdObject(r)
 		for k := 0; k < replicas; k++ {
-			c := Case{ID: fmt.Sprintf("%s-%d", stream, id), Script: s, Opt: i%2 == 0, Fns: []HostFn{recFn()}, Show: []string{"code", "dump"}, Tags: []string{"known:KF-26"},
+			c := Case{ID: fmt.Sprintf("%s-%d", stream, id), Script: s, Opt: i%2 == 0, Fns: []HostFn{recFn()}, Show: []string{"code", "dump"}, Tags: []string{"regress:KF-26"},
 				Runs: []Run{{Obj: o, Polls: defaultPolls}, {Obj: o, Polls: defaultPolls}}}
 			id++
-			out = append(out, GenCase{Case: c, Stream: stream, NonTrivial: k == 0, Pair: fmt.Sprintf("detk-%d", i), Role: "replica", IgnoreKeys: map[string]bool{"d": true}, ModelFree: true})
+			out = append(out, GenCase{Case: c, Stream: stream, NonTrivial: k == 0, Pair: fmt.Sprintf("detk-%d", i), Role: "replica", IgnoreKeys: map[string]bool{"d": true}})
 		}
 	}
 	return out
-}
-
-func inList(xs []string, x string) bool {
-	for _, y := range xs {
-		if x == y {
-			return true
-		}
-	}
-	return false
 }
 
 func init() {
@@ -207,7 +201,6 @@ func init() {
 	predicates["kf25Script"] = func(v OracleViolation) bool {
 		return strings.Contains(v.Detail, "underflow") && strings.Contains(v.Detail, "value-less expression where a value is consumed")
 	}
-	predicates["kf26Script"] = func(v OracleViolation) bool { return inList(kf26Scripts(), v.Script) }
 }
 
 // ---- regression corpus: the reproducers of the repaired findings, with the result the language defines ----
